@@ -1,6 +1,7 @@
-(* Extraction for C15: the router lifecycle / queued-action protocol model with the checkpoint-vertex layer. *)
+(* Extraction for C15: the router lifecycle / queued-action protocol model with the checkpoint-vertex layer and the connection-pin layer. *)
 Require Extraction.
 Require Import ExtrOcamlBasic.
-From Adapt Require Import Avoid.LifecycleModel.
+From Adapt Require Import Avoid.LifecycleModel Avoid.LifecyclePinModel.
 Extraction "c15_model.ml" init step legal heap active aconns queue bad freed alive
-  xinit xstep xlegal core vheap cpv vfreed vbad live_cp.
+  xinit xstep xlegal core vheap cpv vfreed vbad live_cp
+  pinit pstep plegal xs pheap pown pfreed pbad pin_count live_pins.
